@@ -65,4 +65,30 @@ CLAIMS = {
               "by the bounded stand-in / later obligations."),
 }
 
+CLAIMS.update({
+    'C04': _p("Value isolation is decided on a ghost heap: the ownership clause (no store or buffer shared between two objects of "
+              "which one is mutable; no mutable object on an immutable-flagged or cached store; no live buffer handed out or "
+              "adopted) is evaluated on every path of every contract, and the derivation routes (constructors from every source "
+              "kind, bits=, copies, tobitarray, fromstring) have their own contracts. Immutable receivers: content unchanged by "
+              "every method under contract. The induction over histories is the standard meta-argument.",
+              technique='contract-based deductive verification with ghost ownership state (identity of stores and buffers) on the '
+                        'symbolically executed real code; identity facts replayed on real objects'),
+    'C09': _p("Purity of every memoised function is a frame (read-effect) contract: reads*(f) over the AST call graph contains no "
+              "module option unless that option is a parameter of the cached function fed with the live value at every call site; "
+              "typed cache keys where equal-but-distinguishable arguments matter; the lsb0 dispatch tables rebind the same "
+              "attribute set and have no other writer. A bounded warm-vs-cold interleaving run cross-checks the analysis.",
+              note="Call-graph resolution is by name and class hierarchy; a method whose name also exists on a builtin type, called "
+                   "on a receiver that is not self/cls/a package module or class, is taken to be a builtin call (stated assumption).",
+              technique='frame/effect contracts computed from the AST of the real source (static, all paths), native history replay'),
+    'C10': _p("ue/se: encoder (loop invariant tmp*2^(lz+1) <= i+1 < (tmp+1)*2^(lz+1)) and decoder (invariant: bits [oldpos,pos) are "
+              "zero) are proved against the H.264 codeword definition for every integer and every bit content, incl. ReadError on "
+              "truncation and exact position advance through read(); uie/sie (string-built encoder) and stream concatenation are "
+              "bounded stand-ins on the real functions.", category='other'),
+    'C12': _p("For every operation with positions, the real lsb0 code path (dispatch interpreted from Options.set_lsb0) is proved "
+              "equal to rev . msb0-SPEC . rev on all operands for every step sign, index and range (slicing, item deletion, "
+              "insert/overwrite/append/prepend/reverse/set/invert, startswith/endswith); offset_slice_indices_lsb0 satisfies the "
+              "mirror law on (first, count, step) for symbolic step; whole-value operations (==, hash, len, tobytes, shifts, +, &) "
+              "are proved mode-independent. Ranged rotations, find family and reads in lsb0 are load-sensitive/bounded."),
+})
+
 NOT_APPLICABLE = {}
